@@ -1467,6 +1467,27 @@ def mk_sub(base, idx):
             r_ = _replicate_item(base, idx)
             if r_ is not None:
                 return r_
+    if at is not None and at.kind == 'call' and at.args[0] in ('min', 'max') and len(at.args[1]) == 2 and not at.args[2] \
+            and idx.const() is not None and idx.const().denominator == 1:
+        # element-wise minimum / maximum (np.clip) of a short literal array and a scalar: the item is the min / max of the item
+        def arr_item(t_):
+            ta_ = t_.single_atom()
+            if ta_ is not None and ta_.kind in ('list', 'tuple') and -len(ta_.args) <= idx.const() < len(ta_.args):
+                return ta_.args[int(idx.const())]
+            if ta_ is not None and ta_.kind == 'call' and ta_.args[0] in ('min', 'max', 'array') and ta_.args[1]:
+                r_ = mk_sub(t_, idx)
+                ra_ = r_.single_atom()
+                if not (ra_ is not None and ra_.kind == 'sub' and ra_.args[0].key == t_.key):
+                    return r_
+            return None
+        a0_, a1_ = at.args[1]
+        i0_, i1_ = arr_item(a0_), arr_item(a1_)
+        if i0_ is not None and i1_ is None and _numeric_like(a1_) and a1_.single_atom() is None or (i0_ is not None and i1_ is None and (
+                a1_.const() is not None or (a1_.single_atom() is not None and a1_.single_atom().kind in ('attr', 'sym')))):
+            return mk_call(at.args[0], [i0_, a1_])
+        if i1_ is not None and i0_ is None and (a0_.const() is not None or (a0_.single_atom() is not None and
+                                                                            a0_.single_atom().kind in ('attr', 'sym'))):
+            return mk_call(at.args[0], [a0_, i1_])
     if at is not None and at.kind == 'record':
         c_ = idx.const()
         if c_ is not None and c_.denominator == 1 and -len(at.args[1]) <= c_ < len(at.args[1]):
